@@ -97,6 +97,12 @@ def rule_E(ck, owners, rule="E"):
                 if bad is not None and (has_unknown(bad[1]) or has_unknown(bad[2]) or _imprecise(bad[2] - bad[1], bad[0])):
                     rec.broken("%s %s %s: image extent undecided: %s vs %s" % (tu.cfg, rule, fn, show(bad[1])[:100], show(bad[2])[:100]))
                     continue
+                if not good:
+                    from .model import find_model
+                    wit = find_model(bad[0], bad[2] - bad[1])
+                    if wit is None:
+                        rec.broken("%s %s %s: image extent not provable and no witness state found: %s vs %s" % (tu.cfg, rule, fn, show(bad[1])[:100], show(bad[2])[:100]))
+                        continue
                 rec.ob(rule + "1", good, {"config": tu.cfg, "witness": fn, "obligation": "bytes stored into the block (old or new) <= its size"})
                 if not good:
                     f, n2, s2, what = bad
@@ -118,6 +124,12 @@ def rule_E(ck, owners, rule="E"):
             if bad is not None and (has_unknown(bad[1]) or has_unknown(bad[2]) or _imprecise(bad[2] - bad[1], bad[0])):
                 rec.broken("%s %s %s: image extent undecided: %s vs %s" % (tu.cfg, rule, fn, show(bad[1])[:100], show(bad[2])[:100]))
                 continue
+            if not good:
+                from .model import find_model
+                wit = find_model(bad[0], bad[2] - bad[1])
+                if wit is None:
+                    rec.broken("%s %s %s: image extent not provable and no witness state found: %s vs %s" % (tu.cfg, rule, fn, show(bad[1])[:100], show(bad[2])[:100]))
+                    continue
             rec.ob(rule + "1", good, {"config": tu.cfg, "witness": fn, "obligation": "bytes stored into the block (%s) <= its size" % what})
             if not good:
                 f, n2, s2 = bad
